@@ -223,7 +223,7 @@ func checkC01(sc *Scenario) *CheckResult {
 	}
 	cv := out.Client
 	view := out.Backend
-	ct := clientTriple(&sc.Client)
+	ct := clientTriple(&sc.Client, out.Sent)
 	bt := view.triple()
 	res.class("form=%s target=%s outcome=%s", sc.Client.Form, strings.SplitN(bt, "+", 2)[0], cv.outcome())
 	res.Key = fmt.Sprintf("%s|%s|%x|%x", ct, bt, sc.Client.Msgs, sc.Backend.Msgs)
